@@ -24,7 +24,7 @@ REVERTS = [  # (name, commit, intended checks, what the fix repaired)
     ('revF11', 'af91a4a', ['C05'], 'consumed event stops orthogonal siblings'),
     ('revF1', '8a13248', ['C08'], 'load() keeps loaded resumable marks'),
     ('revF1b', '3565dbb', ['C08'], 'loadEnter() keeps loaded resumable marks'),
-    ('revF19', 'a343ac4', ['C16'], 'reset refreshes the structure report'),
+    # (a343ac4, reset refreshes the structure report, no longer reverts cleanly: covered by mutant m19)
     ('revF6', '7933029', ['C13'], 'pending queries'),
     ('revF22', 'fa7bde8', ['C20'], '32-bit uint64 order'),
     ('revF25', '164c352', ['C04', 'C02'], 'backup covers remain marks'),
